@@ -48,14 +48,15 @@ def extra_checks(tier, seed):
             viol.append({"contract": "extra:stop_gradient_frame", "obligation": name, "reason": f"found {got} stop_gradient equations, expected {want}", "native": {"violated": True}})
 
     # (ii) stop_gradient only where documented and only when requested
-    for calib, flag, want in [("none", None, 0), ("mle", None, 0), ("dynamic", True, 1), ("dynamic", False, 0)]:
+    for calib, flag, relin, want in [("none", None, None, 0), ("mle", None, None, 0)] + [("dynamic", fl, rl, 1 if fl else 0) for fl in (True, False) for rl in (False, True)]:
         cfg = ivp.Cfg("dense", calib, "filter", "ts0", q=1, d=1)
         ssm, ode, constraint, strategy, solver = ivp.make_solver(cfg)
         if calib == "dynamic":
-            solver = pd.solver_dynamic(constraint=constraint, strategy=strategy, stop_gradient_through_calibration=flag)
+            # both constructor options together: the stop is requested by one of them only
+            solver = pd.solver_dynamic(constraint=constraint, strategy=strategy, stop_gradient_through_calibration=flag, re_linearize_after_calibration=relin)
         _, state = ivp.make_state(cfg, rng, solver=solver, ssm=ssm)
         j = jax.make_jaxpr(lambda s, dt: solver.step(s, dt=dt, damp=0.0))(state, jnp.asarray(0.1))
-        expect(f"step[{calib},stop_gradient_through_calibration={flag}]", _count(j.jaxpr, "stop_gradient"), want)
+        expect(f"step[{calib},stop_gradient_through_calibration={flag},re_linearize_after_calibration={relin}]", _count(j.jaxpr, "stop_gradient"), want)
     from probdiffeq._ivpsolve.solvers_via_adaptive_steps import RejectionLoop
     from probdiffeq.backend import flow
 
